@@ -131,3 +131,216 @@ Proof.
     + assert (X : c09_lazy = Ok (s, p)) by exact E. vm_compute in X. inversion X. reflexivity.
     + exact (run_extends_lazy_stdlib c09_oracle c09_tree c09_file config0 [[]] None (@nil unit) (fun _ _ => None) 50%nat [(0, [(0, [0])])] c09_g0 s p (graph_wf_sorted _ c09_nonvacuous) E).
 Qed.
+
+(* ================================================================================================================
+   SINGLE ASSIGNMENT AT STATEMENT AND RUN LEVEL (audit follow-up; Proofs/AttrConflict.v).
+   target_attr g (TNode n) k / target_attr g (TEdge a b) k = the value of attribute k of that node / edge in g.
+   An attribute statement whose value differs from the value the element already has — set earlier in this run or already
+   on the graph handed to execute_into — FAILS with DuplicateAttribute: it never succeeds and never overwrites (the
+   state is discarded with the error); an equal value is accepted and the graph stays as it is. *)
+From TSG Require Import Proofs.AttrConflict.
+
+(* strict `attr (node) pre.., k = e, post..` (k not a shorthand): node evaluates to n, the attributes before k ran, e
+   evaluates to v, node n has k = old <> v  ==>  the statement fails with exactly DuplicateAttribute *)
+Theorem strict_attr_conflict_fails : forall {rx} t fl cfg glob (regexes : list rx) find call fuel le node pre k e post l s p n s1 p1 s2 p2 v s3 p3 old,
+  snd (poll_step L_exec_stmt p) = false ->
+  eval t fl glob call (S fuel) le node s (fst (poll_step L_exec_stmt p)) = Ok (VGraph n, s1, p1) ->
+  iterM (exec_attr t fl glob call (S fuel) le (TNode n)) pre s1 p1 = Ok (tt, s2, p2) ->
+  snd (poll_step L_exec_attr p2) = false -> find_shorthand k (f_shorthands fl) = None ->
+  eval t fl glob call fuel le e s2 (fst (poll_step L_exec_attr p2)) = Ok (v, s3, p3) ->
+  target_attr (s_graph s3) (TNode n) k = Some old -> old <> v ->
+  exec_stmt t fl cfg glob regexes find call (S (S fuel)) le (SAttrNode node (pre ++ Attr k e :: post) l) s p = Err EDuplicateAttribute.
+Proof. intros rx. exact (@strict_attr_node_conflict rx). Qed.
+
+Theorem strict_edge_attr_conflict_fails : forall {rx} t fl cfg glob (regexes : list rx) find call fuel le src snk pre k e post l s p a b sa pa s1 p1 s2 p2 v s3 p3 old,
+  snd (poll_step L_exec_stmt p) = false ->
+  eval t fl glob call (S fuel) le src s (fst (poll_step L_exec_stmt p)) = Ok (VGraph a, sa, pa) ->
+  eval t fl glob call (S fuel) le snk sa pa = Ok (VGraph b, s1, p1) ->
+  iterM (exec_attr t fl glob call (S fuel) le (TEdge a b)) pre s1 p1 = Ok (tt, s2, p2) ->
+  snd (poll_step L_exec_attr p2) = false -> find_shorthand k (f_shorthands fl) = None ->
+  eval t fl glob call fuel le e s2 (fst (poll_step L_exec_attr p2)) = Ok (v, s3, p3) ->
+  target_attr (s_graph s3) (TEdge a b) k = Some old -> old <> v ->
+  exec_stmt t fl cfg glob regexes find call (S (S fuel)) le (SAttrEdge src snk (pre ++ Attr k e :: post) l) s p = Err EDuplicateAttribute.
+Proof. intros rx. exact (@strict_attr_edge_conflict rx). Qed.
+
+(* positive halves: an equal value is accepted; the graph (and the variables) after the statement are those after
+   evaluating the value expression: the assignment itself changes nothing *)
+Theorem strict_attr_equal_value_accepted : forall {rx} t fl cfg glob (regexes : list rx) find call fuel le node k e l s p n s1 p1 v s2 p2,
+  snd (poll_step L_exec_stmt p) = false ->
+  eval t fl glob call (S fuel) le node s (fst (poll_step L_exec_stmt p)) = Ok (VGraph n, s1, p1) ->
+  snd (poll_step L_exec_attr p1) = false -> find_shorthand k (f_shorthands fl) = None ->
+  eval t fl glob call fuel le e s1 (fst (poll_step L_exec_attr p1)) = Ok (v, s2, p2) ->
+  target_attr (s_graph s2) (TNode n) k = Some v ->
+  exec_stmt t fl cfg glob regexes find call (S (S fuel)) le (SAttrNode node [Attr k e] l) s p =
+  Ok (tt, {| s_graph := s_graph s2; s_locals := s_locals s2; s_scoped := s_scoped s2; s_params := s_params s2 |}, p2).
+Proof. intros rx. exact (@strict_attr_node_equal rx). Qed.
+
+Theorem strict_edge_attr_equal_value_accepted : forall {rx} t fl cfg glob (regexes : list rx) find call fuel le src snk k e l s p a b sa pa s1 p1 v s2 p2,
+  snd (poll_step L_exec_stmt p) = false ->
+  eval t fl glob call (S fuel) le src s (fst (poll_step L_exec_stmt p)) = Ok (VGraph a, sa, pa) ->
+  eval t fl glob call (S fuel) le snk sa pa = Ok (VGraph b, s1, p1) ->
+  snd (poll_step L_exec_attr p1) = false -> find_shorthand k (f_shorthands fl) = None ->
+  eval t fl glob call fuel le e s1 (fst (poll_step L_exec_attr p1)) = Ok (v, s2, p2) ->
+  target_attr (s_graph s2) (TEdge a b) k = Some v ->
+  exec_stmt t fl cfg glob regexes find call (S (S fuel)) le (SAttrEdge src snk [Attr k e] l) s p =
+  Ok (tt, {| s_graph := s_graph s2; s_locals := s_locals s2; s_scoped := s_scoped s2; s_params := s_params s2 |}, p2).
+Proof. intros rx. exact (@strict_attr_edge_equal rx). Qed.
+
+(* RUN level, strict: the run got as far as the top-level statement x of stanza st on its match q (stanzas stpre ran on
+   all their matches, st ran on the matches mpre, and the statements spre before x ran on q), and x fails with e.  Then
+   the RUN returns Err with the same root cause; nothing after x is executed and no graph is returned.
+   top_le st q n x is the environment Stanza::execute gives x; stanza_prefix st spre is st cut down to spre. *)
+Theorem strict_run_failing_statement_fails_run : forall {rx} t fl cfg supplied budget (regexes : list rx) find call fuel matches g0 glob
+    stpre mspre st sts mpre q mpost ms sA pA sB pB n rest spre x spost s p e,
+  check_globals (f_globals fl) (globals_nested supplied) = Ok glob ->
+  f_stanzas fl = stpre ++ st :: sts -> matches = mspre ++ (mpre ++ q :: mpost) :: ms -> length stpre = length mspre ->
+  exec_file t fl cfg glob regexes find call fuel stpre mspre (sinit g0) (polls0 budget) = Ok (tt, sA, pA) ->
+  iterM (exec_stanza t fl cfg glob regexes find call fuel st) mpre sA pA = Ok (tt, sB, pB) ->
+  nodes_for_capture q (st_full_stanza_idx st) = n :: rest ->
+  st_stmts st = spre ++ x :: spost ->
+  exec_stanza t fl cfg glob regexes find call fuel (stanza_prefix st spre) q sB pB = Ok (tt, s, p) ->
+  exec_stmt t fl cfg glob regexes find call fuel (top_le st q n x) x s p = Err e ->
+  exists e', run_strict t fl cfg supplied budget regexes find call fuel matches g0 = Err e' /\ root_cause e' = root_cause e.
+Proof. intros rx. exact (@strict_run_stmt_fails rx). Qed.
+
+(* ... so a conflicting top-level `attr (node) ..` makes the strict RUN fail with root cause DuplicateAttribute *)
+Theorem strict_run_attr_conflict_fails : forall {rx} t fl cfg supplied budget (regexes : list rx) find call fuel matches g0 glob
+    stpre mspre st sts mpre q mpost ms sA pA sB pB n rest spre spost s p node pre k e post l gn s1 p1 s2 p2 v s3 p3 old,
+  check_globals (f_globals fl) (globals_nested supplied) = Ok glob ->
+  f_stanzas fl = stpre ++ st :: sts -> matches = mspre ++ (mpre ++ q :: mpost) :: ms -> length stpre = length mspre ->
+  exec_file t fl cfg glob regexes find call (S (S fuel)) stpre mspre (sinit g0) (polls0 budget) = Ok (tt, sA, pA) ->
+  iterM (exec_stanza t fl cfg glob regexes find call (S (S fuel)) st) mpre sA pA = Ok (tt, sB, pB) ->
+  nodes_for_capture q (st_full_stanza_idx st) = n :: rest ->
+  let x := SAttrNode node (pre ++ Attr k e :: post) l in
+  let le := top_le st q n x in
+  st_stmts st = spre ++ x :: spost ->
+  exec_stanza t fl cfg glob regexes find call (S (S fuel)) (stanza_prefix st spre) q sB pB = Ok (tt, s, p) ->
+  snd (poll_step L_exec_stmt p) = false ->
+  eval t fl glob call (S fuel) le node s (fst (poll_step L_exec_stmt p)) = Ok (VGraph gn, s1, p1) ->
+  iterM (exec_attr t fl glob call (S fuel) le (TNode gn)) pre s1 p1 = Ok (tt, s2, p2) ->
+  snd (poll_step L_exec_attr p2) = false -> find_shorthand k (f_shorthands fl) = None ->
+  eval t fl glob call fuel le e s2 (fst (poll_step L_exec_attr p2)) = Ok (v, s3, p3) ->
+  target_attr (s_graph s3) (TNode gn) k = Some old -> old <> v ->
+  exists e', run_strict t fl cfg supplied budget regexes find call (S (S fuel)) matches g0 = Err e' /\ root_cause e' = EDuplicateAttribute.
+Proof.
+  intros rx t fl cfg supplied budget regexes find call fuel matches g0 glob stpre mspre st sts mpre q mpost ms sA pA sB pB n rest spre spost s p
+    node pre k e post l gn s1 p1 s2 p2 v s3 p3 old Hg Hf Hm Hl HA HB Hn x le Hst Hpre Hp En Hit Hp2 Hs Ev Ht Hne.
+  eapply (strict_run_failing_statement_fails_run t fl cfg supplied budget regexes find call (S (S fuel)) matches g0 glob
+            stpre mspre st sts mpre q mpost ms sA pA sB pB n rest spre x spost s p EDuplicateAttribute); eauto.
+  exact (strict_attr_conflict_fails t fl cfg glob regexes find call fuel le node pre k e post l s p gn s1 p1 s2 p2 v s3 p3 old Hp En Hit Hp2 Hs Ev Ht Hne).
+Qed.
+
+(* lazy: attribute statements are deferred; the single-assignment check happens when the deferred statement
+   LSAttrNode node attrs dbg is EVALUATED.  node evaluates to n, the attributes before (k, lv) were applied, lv evaluates
+   to v, node n has k = old <> v — whether old was set by a statement of this run (prev = that statement) or was already
+   on the graph passed to execute_into (prev = None, fix F9) —  ==>  the evaluation fails with DuplicateAttribute in the
+   context of the statement(s): dup_attr_error prev dbg = EInContext (CtxStmts ([prev;] dbg)) EDuplicateAttribute *)
+Theorem lazy_attr_conflict_fails : forall t fl call fuel node pre k lv post dbg s p n s1 p1 s2 p2 v s3 p3 old,
+  snd (poll_step L_eval_stmt p) = false ->
+  eval_as_gnode t fl call fuel node s (fst (poll_step L_eval_stmt p)) = Ok (n, s1, p1) ->
+  iterM (node_attr_step t fl call fuel n dbg) pre s1 p1 = Ok (tt, s2, p2) ->
+  eval_lv t fl call fuel lv s2 p2 = Ok (v, s3, p3) ->
+  target_attr (l_graph s3) (TNode n) k = Some old -> old <> v ->
+  exists prev, eval_lstmt t fl call fuel (LSAttrNode node (pre ++ (k, lv) :: post) dbg) s p = Err (dup_attr_error prev dbg).
+Proof. exact lazy_attr_node_conflict. Qed.
+
+Theorem lazy_edge_attr_conflict_fails : forall t fl call fuel src snk pre k lv post dbg s p a b sa pa s1 p1 s2 p2 v s3 p3 old,
+  snd (poll_step L_eval_stmt p) = false ->
+  eval_as_gnode t fl call fuel src s (fst (poll_step L_eval_stmt p)) = Ok (a, sa, pa) ->
+  eval_as_gnode t fl call fuel snk sa pa = Ok (b, s1, p1) ->
+  iterM (edge_attr_step t fl call fuel a b dbg) pre s1 p1 = Ok (tt, s2, p2) ->
+  eval_lv t fl call fuel lv s2 p2 = Ok (v, s3, p3) ->
+  target_attr (l_graph s3) (TEdge a b) k = Some old -> old <> v ->
+  exists prev, eval_lstmt t fl call fuel (LSAttrEdge src snk (pre ++ (k, lv) :: post) dbg) s p = Err (dup_attr_error prev dbg).
+Proof. exact lazy_attr_edge_conflict. Qed.
+
+Theorem dup_attr_error_root_cause : forall prev dbg, root_cause (dup_attr_error prev dbg) = EDuplicateAttribute.
+Proof. reflexivity. Qed.
+
+Theorem lazy_attr_equal_value_accepted : forall t fl call fuel node k lv dbg s p n s1 p1 v s2 p2,
+  snd (poll_step L_eval_stmt p) = false ->
+  eval_as_gnode t fl call fuel node s (fst (poll_step L_eval_stmt p)) = Ok (n, s1, p1) ->
+  eval_lv t fl call fuel lv s1 p1 = Ok (v, s2, p2) ->
+  target_attr (l_graph s2) (TNode n) k = Some v ->
+  exists s', eval_lstmt t fl call fuel (LSAttrNode node [(k, lv)] dbg) s p = Ok (tt, s', p2) /\ l_graph s' = l_graph s2.
+Proof. exact lazy_attr_node_equal. Qed.
+
+Theorem lazy_edge_attr_equal_value_accepted : forall t fl call fuel src snk k lv dbg s p a b sa pa s1 p1 v s2 p2,
+  snd (poll_step L_eval_stmt p) = false ->
+  eval_as_gnode t fl call fuel src s (fst (poll_step L_eval_stmt p)) = Ok (a, sa, pa) ->
+  eval_as_gnode t fl call fuel snk sa pa = Ok (b, s1, p1) ->
+  eval_lv t fl call fuel lv s1 p1 = Ok (v, s2, p2) ->
+  target_attr (l_graph s2) (TEdge a b) k = Some v ->
+  exists s', eval_lstmt t fl call fuel (LSAttrEdge src snk [(k, lv)] dbg) s p = Ok (tt, s', p2) /\ l_graph s' = l_graph s2.
+Proof. exact lazy_attr_edge_equal. Qed.
+
+(* RUN level, lazy: the execution phase succeeded (state s: l_attrs s is the list of ALL deferred attribute statements of
+   the run, in order), the edge statements and the attribute statements apre were evaluated, and the deferred statement x
+   fails with e: the RUN returns exactly Err e *)
+Theorem lazy_run_failing_attr_statement_fails_run : forall {rx} t fl cfg supplied budget (regexes : list rx) find call fuel matches g0 glob s p s1 p1 apre x apost s2 p2 e,
+  check_globals (f_globals fl) (globals_nested supplied) = Ok glob ->
+  iterM (fun pm : N * qmatch =>
+           match nth_error (f_stanzas fl) (N.to_nat (fst pm)) with
+           | Some st => lexec_stanza t fl cfg glob regexes find call fuel st (snd pm)
+           | None => panic P_stanza_index
+           end) matches (linit g0) (polls0 budget) = Ok (tt, s, p) ->
+  iterM (eval_lstmt t fl call (fuel + default_eval_fuel)) (l_edges s) s p = Ok (tt, s1, p1) ->
+  l_attrs s = apre ++ x :: apost ->
+  iterM (eval_lstmt t fl call (fuel + default_eval_fuel)) apre s1 p1 = Ok (tt, s2, p2) ->
+  eval_lstmt t fl call (fuel + default_eval_fuel) x s2 p2 = Err e ->
+  run_lazy t fl cfg supplied budget regexes find call fuel matches g0 = Err e.
+Proof. intros rx. exact (@lazy_run_attr_stmt_fails rx). Qed.
+
+(* non-vacuity: the hypotheses of the statement-level theorems hold on a concrete state (node 0 has k = 1, x is bound to
+   node 0): `attr (x) k = 2` fails, `attr (x) k = 1` is accepted *)
+Definition c09_s1 : sstate :=
+  {| s_graph := [ {| g_attrs := [([107], VInt 1)]; g_edges := [(0, [([107], VInt 1)])] |} ];
+     s_locals := [[([120], (VGraph 0, false))]]; s_scoped := []; s_params := [] |}.
+Definition c09_le : lenv := {| le_match := []; le_full := 0; le_caps := []; le_ctx := {| sc_stmt := (0, 0); sc_stanza := (0, 0); sc_node := 0 |} |}.
+Example c09_strict_stmt_nonvacuous :
+  exec_stmt c09_tree c09_file config0 [] (@nil unit) (fun _ _ => None) (stdlib_call c09_oracle c09_tree) 3 c09_le
+    (SAttrNode (EUnscoped [120] (0, 0)) ([] ++ Attr [107] (EInt 2) :: []) (0, 0)) c09_s1 (polls0 None) = Err EDuplicateAttribute /\
+  exec_stmt c09_tree c09_file config0 [] (@nil unit) (fun _ _ => None) (stdlib_call c09_oracle c09_tree) 3 c09_le
+    (SAttrEdge (EUnscoped [120] (0, 0)) (EUnscoped [120] (0, 0)) ([] ++ Attr [107] (EInt 2) :: []) (0, 0)) c09_s1 (polls0 None) = Err EDuplicateAttribute /\
+  (exists s' p', exec_stmt c09_tree c09_file config0 [] (@nil unit) (fun _ _ => None) (stdlib_call c09_oracle c09_tree) 3 c09_le
+    (SAttrNode (EUnscoped [120] (0, 0)) [Attr [107] (EInt 1)] (0, 0)) c09_s1 (polls0 None) = Ok (tt, s', p') /\ s_graph s' = s_graph c09_s1).
+Proof.
+  split; [|split].
+  - eapply (strict_attr_conflict_fails c09_tree c09_file config0 [] (@nil unit) (fun _ _ => None) (stdlib_call c09_oracle c09_tree) 1 c09_le
+              (EUnscoped [120] (0, 0)) [] [107] (EInt 2) [] (0, 0) c09_s1 (polls0 None) 0 _ _ _ _ (VInt 2) _ _ (VInt 1)).
+    all: try (vm_compute; reflexivity). discriminate.
+  - eapply (strict_edge_attr_conflict_fails c09_tree c09_file config0 [] (@nil unit) (fun _ _ => None) (stdlib_call c09_oracle c09_tree) 1 c09_le
+              (EUnscoped [120] (0, 0)) (EUnscoped [120] (0, 0)) [] [107] (EInt 2) [] (0, 0) c09_s1 (polls0 None) 0 0 _ _ _ _ _ _ (VInt 2) _ _ (VInt 1)).
+    all: try (vm_compute; reflexivity). discriminate.
+  - eexists. eexists. split.
+    + eapply (strict_attr_equal_value_accepted c09_tree c09_file config0 [] (@nil unit) (fun _ _ => None) (stdlib_call c09_oracle c09_tree) 1 c09_le
+                (EUnscoped [120] (0, 0)) [107] (EInt 1) (0, 0) c09_s1 (polls0 None) 0 _ _ (VInt 1)).
+      all: vm_compute; reflexivity.
+    + reflexivity.
+Qed.
+
+(* non-vacuity at run level, both interpreters:  (module) @m { let x = (node)  attr (x) k = 1  attr (x) k = 2 }  fails
+   with root cause DuplicateAttribute;  with `attr (x) k = 1` twice it succeeds and k = 1 *)
+Definition c09_file2 (second : N) : file :=
+  {| f_globals := []; f_inherited := []; f_shorthands := [];
+     f_stanzas := [{|
+       st_stmts := [ SLet (VarU [120] (1, 6)) (ECall Lit.node []) (1, 2);
+                     SAttrNode (EUnscoped [120] (2, 8)) [Attr [107] (EInt 1)] (2, 2);
+                     SAttrNode (EUnscoped [120] (3, 8)) [Attr [107] (EInt second)] (3, 2) ];
+       st_full_stanza_idx := 0; st_full_file_idx := 0; st_start := (0, 0) |}] |}.
+Example c09_run_conflict_nonvacuous :
+  (exists e, run_strict c09_tree (c09_file2 2) config0 [[]] None (@nil unit) (fun _ _ => None) (stdlib_call c09_oracle c09_tree) 50 [[[(0, [0])]]] [] = Err e /\
+             root_cause e = EDuplicateAttribute) /\
+  (exists e, run_lazy c09_tree (c09_file2 2) config0 [[]] None (@nil unit) (fun _ _ => None) (stdlib_call c09_oracle c09_tree) 50 [(0, [(0, [0])])] [] = Err e /\
+             root_cause e = EDuplicateAttribute) /\
+  (exists s p, run_strict c09_tree (c09_file2 1) config0 [[]] None (@nil unit) (fun _ _ => None) (stdlib_call c09_oracle c09_tree) 50 [[[(0, [0])]]] [] = Ok (s, p) /\
+             s_graph s = [ {| g_attrs := [([107], VInt 1)]; g_edges := [] |} ]) /\
+  (exists s p, run_lazy c09_tree (c09_file2 1) config0 [[]] None (@nil unit) (fun _ _ => None) (stdlib_call c09_oracle c09_tree) 50 [(0, [(0, [0])])] [] = Ok (s, p) /\
+             l_graph s = [ {| g_attrs := [([107], VInt 1)]; g_edges := [] |} ]).
+Proof.
+  split; [|split; [|split]].
+  - eexists. split; vm_compute; reflexivity.
+  - eexists. split; vm_compute; reflexivity.
+  - eexists. eexists. split; vm_compute; reflexivity.
+  - eexists. eexists. split; vm_compute; reflexivity.
+Qed.
